@@ -138,9 +138,54 @@ def weak_form_memo(ctx):
     r = ctx.rule("WEAKFORM-MEMO", "weak_form() assembles once and returns the cached object on every later call (both operator base classes)", 2)
     for rel, qn in (("bempp_cl/api/assembly/boundary_operator.py", "BoundaryOperator.weak_form"), ("bempp_cl/api/assembly/blocked_operator.py", "BlockedOperatorBase.weak_form")):
         fn = ctx.repo.mod(rel).fn(qn)
-        s = unparse(fn).replace(" ", "").replace("\n", "")
-        ok = ("ifnotself._cached:self._cached=self._assemble()returnself._cached" in s) or ("ifself._cachedisNone:self._cached=self._assemble()returnself._cached" in s)
-        r.check(ok, qn, rel, qn, fn.lineno, "weak_form memo of " + qn.split(".")[0], "weak_form no longer caches the assembled operator in self._cached and returns that object")
+        why = _memo_shape(fn, "self._cached", "self._assemble()")
+        r.check(why is None, qn, rel, qn, fn.lineno, "weak_form memo of " + qn.split(".")[0], "weak_form does not memoise the assembled operator in self._cached: %s" % why)
+    # embedded positive: a body that reassembles on every call
+    bad = ast.parse("def weak_form(self):\n    self._cached = self._assemble()\n    return self._cached").body[0]
+    r.must_fire(_memo_shape(bad, "self._cached", "self._assemble()") is not None, "unguarded re-assembly")
+
+
+def _memo_shape(fn, slot, init):
+    """None iff every store to `slot` is `slot = init` under an `is empty` test of the slot, and every return is the slot."""
+    defs = roles.Defs(fn)
+
+    def empty_test(t):
+        if isinstance(t, ast.UnaryOp) and isinstance(t.op, ast.Not):
+            return unparse(t.operand) == slot
+        return isinstance(t, ast.Compare) and len(t.ops) == 1 and isinstance(t.ops[0], ast.Is) and unparse(t.left) == slot and isinstance(t.comparators[0], ast.Constant) and t.comparators[0].value is None
+
+    stores = []
+
+    def rec(body, guarded):
+        for st in body:
+            if isinstance(st, (ast.Assign, ast.AugAssign, ast.AnnAssign)):
+                tg = st.targets if isinstance(st, ast.Assign) else [st.target]
+                if any(unparse(t) == slot for t in tg):
+                    stores.append((st, guarded))
+            elif isinstance(st, ast.If):
+                rec(st.body, guarded or empty_test(st.test))
+                rec(st.orelse, guarded)
+            elif isinstance(st, (ast.For, ast.While, ast.With, ast.Try)):
+                for f in ("body", "orelse", "finalbody"):
+                    rec(getattr(st, f, []) or [], guarded)
+                for h in getattr(st, "handlers", []):
+                    rec(h.body, guarded)
+
+    rec(fn.body, False)
+    if not stores:
+        return "no store to %s" % slot
+    for st, guarded in stores:
+        if not guarded:
+            return "%s is overwritten at line %d without testing that it is empty" % (slot, st.lineno)
+        if not isinstance(st, ast.Assign) or roles.canon(st.value, defs).replace(" ", "") != init:
+            return "%s is initialised with `%s`, not `%s`" % (slot, unparse(st.value)[:60], init)
+    rets = [n for n in ast.walk(fn) if isinstance(n, ast.Return)]
+    if not rets:
+        return "no return"
+    for n in rets:
+        if n.value is None or roles.canon(n.value, defs).replace(" ", "") != slot:
+            return "returns `%s` instead of the cached object" % (unparse(n.value)[:60] if n.value is not None else None)
+    return None
 
 
 def precision_pin(ctx):
